@@ -1,6 +1,6 @@
 (* C10 — merge criteria obey their documented laws.
    Statements only; each is closed by [exact <lemma>].  [accept] is tied to the source of
-   bblean/_merges.py by Proofs/GenTie.v (regenerated on every run). *)
+   bblean/_merges.py by Gen/GMerges.v + Proofs/GenTieMerges.v (regenerated and re-proved on every run). *)
 From BB Require Import Model.Merges Proofs.MergeFacts Proofs.GenTieMerges Gen.GMerges Gen.GSim.
 Open Scope Z_scope.
 
